@@ -347,6 +347,10 @@ func c06Crash(files []*sFile, hist []sAction) (enabled bool, viol, class string,
 		enabled = true
 		ops2 = s.steps[len(s.steps)-1].Ops2
 		viol, class = c06AfterCrash(s)
+		if os.Getenv("VERIF_TRACE") != "" {
+			fmt.Println(s.trace())
+			fmt.Println(s.w.tree())
+		}
 		return vh.HistResult{Enabled: true}
 	})
 	return
@@ -427,14 +431,18 @@ func TestC06Aged(t *testing.T) {
 			}
 		}
 		for _, op := range []string{"adv25h", "restart", "age"} {
-			if histCount(hist, op, "", 0) < 1 {
+			max := 1
+			if op == "adv25h" {
+				max = 2 // two days on, the delivery's log record lies in a day file that "the last 24 h" does not touch
+			}
+			if histCount(hist, op, "", 0) < max {
 				out = append(out, sAction{Op: op})
 			}
 		}
 		return out
 	}
 	runC06(t, "receiver crash points, retransmission of a file delivered more than a day ago (E-HIST)", files, alphabet, 6, false,
-		"crash-free histories up to length 6 over one renamed file in 2 parts, each part up to twice, clock +25 h, cache ageing, orderly restart; every crash point of every transition, and of the recovery that follows for histories up to length 3")
+		"crash-free histories up to length 6 over one renamed file in 2 parts, each part up to twice, clock +25 h (x2), cache ageing, orderly restart; every crash point of every transition, and of the recovery that follows for histories up to length 3")
 }
 
 func TestC06(t *testing.T) {
